@@ -31,6 +31,10 @@ type msg struct {
 	Kind string `json:"kind,omitempty"` // how the payload was made: wf | trunc | extend | setcount | flip | zero | raw
 	Dyn  string `json:"dyn,omitempty"`  // resolved at execution: pong_echo | xauth_sign | ver_ournonce
 	Tr   bool   `json:"trusted,omitempty"`
+	// Cmd "#clock": Secs seconds pass on the connection without anything happening (Idle: the peer did not even
+	// answer pings, so the no-data time-out may fire)
+	Secs uint32 `json:"secs,omitempty"`
+	Idle bool   `json:"idle,omitempty"`
 	// Expect "block_accepted": this block message is the genuine copy of a wanted block and has to be taken
 	// (extra oracle on behalf of C09, see checkAcceptedBlock)
 	Expect string `json:"expect,omitempty"`
@@ -1178,6 +1182,47 @@ func (g *G) taprootSpendScenario() []msg {
 		out = append(out, msg{Cmd: "ping", Pl: "0102030405060708", Kind: "wf"})
 	}
 	return append(out, msg{Cmd: "tx", Pl: hex.EncodeToString(t2.Serialize(true)), Kind: "wf"})
+}
+
+var clockSteps = []uint32{1, 59, 61, 600, 3599, 3600, 3601, 3700, 7200, 65535, 65536, 65537, 65536 + 3600, 65520, 72000, 131072}
+
+// penaltyMsgs are well-formed messages that earn a handshaken peer a misbehaviour score below the ban
+// threshold (100, 50, 100, 100, 100 points).
+func (g *G) penaltyMsg() []msg {
+	h := g.bytesN(32, 32)
+	switch g.k(5) {
+	case 0:
+		return []msg{{Cmd: "version", Pl: hex.EncodeToString(goodVersion(77, "/Satoshi:26.0.0/", baseBlocks)), Kind: "wf"}}
+	case 1:
+		return []msg{{Cmd: "getaddr"}, {Cmd: "getaddr"}}
+	case 2:
+		return []msg{{Cmd: "blocktxn", Pl: hex.EncodeToString(append(h, 0)), Kind: "wf"}}
+	case 3:
+		return []msg{{Cmd: "getdata", Pl: "0104000000" + hex.EncodeToString(h), Kind: "wf"}}
+	}
+	// a header with a valid proof of work whose parent is unknown: 50 points
+	hd := wire.Header{Version: blockVersion, Time: genesisTime + 600*(baseBlocks+1), Bits: powBits}
+	copy(hd.PrevBlock[:], h)
+	mine(&hd)
+	return []msg{{Cmd: "headers", Pl: "01" + hex.EncodeToString(hd.Serialize()) + "00", Kind: "wf"}}
+}
+
+// clockScenario adds the time dimension: after the handshake (and an answer to the node's getheaders, so that
+// no header time-out ends the connection) the peer earns 0..3 penalties, time passes (incl. 3599 / 3600 /
+// 3601 s, the 16-bit wrap of the history's time stamps at 65536 s, 18.2 h, 20 h), the loop's once-a-second
+// part runs, more penalties, more time ...
+func (g *G) clockScenario() []msg {
+	out := []msg{{Cmd: "#tick"}, {Cmd: "headers", Pl: "00", Kind: "wf"}}
+	for round, n := 0, g.n(1, 3, "clockrounds"); round < n; round++ {
+		k := pick(g, []int{0, 1, 1, 1, 2, 3})
+		for i := 0; i < k; i++ {
+			out = append(out, g.penaltyMsg()...)
+		}
+		for i, m := 0, g.n(1, 2, "clocksteps"); i < m; i++ {
+			out = append(out, msg{Cmd: "#clock", Secs: pick(g, clockSteps), Idle: g.chance(5)}, msg{Cmd: "#tick"})
+		}
+	}
+	return out
 }
 
 // downloadScenario drives the node into "full block requested from this very peer": the peer announces
